@@ -24,7 +24,7 @@ TAG_SWARM = "C18/swarm"
 
 TIERS = {
     "quick": dict(enum_scenarios=16, stdio_sites=6, swarm=400, real_lli=12, crash=120),
-    "thorough": dict(enum_scenarios=120, stdio_sites=40, swarm=80000, real_lli=300, crash=8000, real_clang=150, render=1800),
+    "thorough": dict(enum_scenarios=120, stdio_sites=40, swarm=80000, real_lli=300, crash=8000, real_clang=150, render=1800, verbose_large=300),
 }
 
 ESC = b"\x1b"
@@ -860,6 +860,25 @@ def _render_grid_job(args):
     return {"violations": [{"class": c, "detail": d, "scenario": sc_json(sc), "plan": [], "fault": "none"} for c, d in v]}
 
 
+def _verbose_large_job(args):
+    """--verbose on programs whose dumps run to tens of kilobytes (rebuilt code
+    with multi-byte indentation, token and IR dumps): same verdict and same
+    artefacts as the plain run."""
+    seed, idx = args
+    rng = rng_for(seed, "C18/verbose_large", idx)
+    sc = make_scenario(rng, "emit", "valid_large", {"verbose": True, "silent": False, "out_dir": "fresh", "wasm": False})
+    sc["name"] = "verbose_large%d" % idx
+    wd = os.path.join(work_root(), "C18", "b%d" % idx)
+    obs = run_census(sc, wd)
+    plain = dict(sc)
+    plain["opts"] = [o for o in sc["opts"] if o != "--verbose"]
+    plain["verbose"] = False
+    ref = exec_scenario(plain, wd + "-plain")
+    obs["artefacts_ref"] = ref["artefacts"]
+    v, calls, _ = judge(sc, obs, obs, "verbose_large", None)
+    return {"violations": [{"class": c, "detail": d, "scenario": sc_json(sc), "plan": [], "fault": "none"} for c, d in v]}
+
+
 def _script_grid_job(args):
     """Every backend behaviour x --silent x subcommand x forced order."""
     seed, idx = args
@@ -1144,6 +1163,11 @@ def run(tier, seed):
         runs += 1
         render_cells += 1
         raw.extend(res["violations"])
+    verbose_large = 0
+    for res in parallel_map(_verbose_large_job, [(seed, i) for i in range(cfg.get("verbose_large", 10))]):
+        runs += 2
+        verbose_large += 1
+        raw.extend(res["violations"])
     fs_cells = {}
     for res in parallel_map(_fs_variant_job, [(seed, i) for i in range(len(FS_VARIANTS) * 3)]):
         runs += 1
@@ -1197,6 +1221,7 @@ def run(tier, seed):
                                       "dimensions": "subcommand {run, build} x --silent x %d backend scripts x forced order" % len(SCRIPTS)},
         "real_filesystem_variants": fs_cells,
         "failing_compilations_rendered_colourless_ascii": render_cells,
+        "verbose_runs_of_large_programs": verbose_large,
         "swarm_runs": swarm_done,
         "crash_restart_runs": crash_done,
         "real_lli_cross_checks": lli_runs,
